@@ -227,6 +227,9 @@ func vBudget(tier string) time.Duration {
 	return 100 * time.Second
 }
 
+// vExtraModes lets build-tag specific files add sub-commands (e.g. racepass).
+var vExtraModes = map[string]func(args []string) int{}
+
 // VerifMain is called by cmd/verifcheck.
 func VerifMain(args []string) int {
 	if len(args) < 1 {
@@ -236,6 +239,9 @@ func VerifMain(args []string) int {
 	seed := int64(0)
 	if s := os.Getenv("VERIF_SEED"); s != "" {
 		seed, _ = strconv.ParseInt(s, 10, 64)
+	}
+	if f, ok := vExtraModes[args[0]]; ok {
+		return f(args[1:])
 	}
 	switch args[0] {
 	case "list":
@@ -359,7 +365,7 @@ func vOrchestrate(id, tier, verifDir string, seed int64, triage bool) int {
 			defer wg.Done()
 			defer func() { <-sem }()
 			cmd := exec.Command(self, "worker", id, tier, strconv.Itoa(i), strconv.Itoa(per))
-			cmd.Env = append(os.Environ(), "GOMAXPROCS=2")
+			cmd.Env = append(os.Environ(), "GOMAXPROCS=1")
 			cmd.Stderr = os.Stderr
 			out, err := cmd.Output()
 			var r vResult
